@@ -9,6 +9,7 @@ import (
 	"strconv"
 	"strings"
 	"sync"
+	"syscall"
 	"time"
 )
 
@@ -76,7 +77,10 @@ func solverSpec(name string) *SolverProc {
 func (sp *SolverProc) start() error {
 	sp.mu.Lock()
 	defer sp.mu.Unlock()
-	sp.cmd = exec.Command(sp.argv[0], sp.argv[1:]...)
+	// address-space limit of 4 GiB per solver process; the solver dies with its parent
+	sp.cmd = exec.Command("sh", "-c", "ulimit -v 4194304; exec \"$@\"", "sh")
+	sp.cmd.Args = append(sp.cmd.Args, sp.argv...)
+	sp.cmd.SysProcAttr = &syscall.SysProcAttr{Pdeathsig: syscall.SIGKILL}
 	var err error
 	sp.in, err = sp.cmd.StdinPipe()
 	if err != nil {
